@@ -1,6 +1,7 @@
 package main
 
 import (
+	"net"
 	"net/http"
 	"net/url"
 
@@ -19,7 +20,11 @@ func vC16RouteReq(tag, method, path, host string, withFwd bool) *http.Request {
 	}
 	for _, k := range keys {
 		if ndBool(tag + "-has-" + k) {
-			h[k] = []string{ndString(tag + "-" + k)}
+			v := ndString(tag + "-" + k)
+			if (k == "X-Forwarded-For" || k == "X-Real-Ip") && ndBool(tag+"-"+k+"-names-a-trusted-address") {
+				v = "10.1.2.3"
+			}
+			h[k] = []string{v}
 		}
 	}
 	req := &http.Request{Method: method, Host: host, URL: &url.URL{Path: path}, Header: h, RemoteAddr: "@"}
@@ -47,5 +52,34 @@ func vh_C16_routes() {
 	verifAssert("C16.routes.same-api-path", p.isAPIPath(r1) == p.isAPIPath(r2))
 	verifAssert("C16.routes.same-trusted-ip", p.isTrustedIP(r1) == p.isTrustedIP(r2))
 	verifAssert("C16.routes.same-redirect-uri", p.getOAuthRedirectURI(r1) == p.getOAuthRedirectURI(r2))
+	verifReach("end")
+}
+
+// trusted-IP exemption with reverse-proxy off: only the connection's own address counts, whatever
+// X-Forwarded-For / X-Real-IP say -- also for connections without an IP address (unix socket, "@")
+// verif: bv unwind=40 steps=4000000
+func vh_C16_trusted_ip() {
+	trusted := ip.NewNetSet()
+	trusted.AddIPNet(net.IPNet{IP: net.IPv4(10, 0, 0, 0).To4(), Mask: net.CIDRMask(8, 32)})
+	p := &OAuthProxy{trustedIPs: trusted}
+	remotes := []string{"@", "192.0.2.1:4000", "10.9.9.9:4000"}
+	remote := remotes[ndChoice("remote-addr", len(remotes))]
+	mk := func(withHeaders bool) *http.Request {
+		h := http.Header{}
+		if withHeaders {
+			if ndBool("has-x-forwarded-for") {
+				h["X-Forwarded-For"] = []string{"10.1.2.3"}
+			}
+			if ndBool("has-x-real-ip") {
+				h["X-Real-Ip"] = []string{"10.1.2.3"}
+			}
+		}
+		req := &http.Request{Method: "GET", Host: "app.example", URL: &url.URL{Path: "/"}, Header: h, RemoteAddr: remote}
+		return middlewareapi.AddRequestScope(req, &middlewareapi.RequestScope{ReverseProxy: false})
+	}
+	t1 := p.isTrustedIP(mk(false))
+	t2 := p.isTrustedIP(mk(true))
+	verifAssert("C16.trusted-ip.headers-change-nothing", t1 == t2)
+	verifAssert("C16.trusted-ip.only-the-connection-address", t1 == (remote == "10.9.9.9:4000"))
 	verifReach("end")
 }
